@@ -173,6 +173,26 @@ func (m c04) challengeValue(r *core.Rand, i int) {
 	case 3:
 		origins = []string{string(alnum(r, r.Of(1000, 65535)))}
 	}
+	if i%8 == 5 {
+		// origin names are separated by commas and are otherwise arbitrary: leading and trailing blanks and tabs, empty names
+		// at either end and in the middle, quotes, NULs, bytes that are not UTF-8 - anything but a comma
+		fixed := []string{" b.example", "b.example ", "\tb.example", "  ", " ", "", "\"quoted\"", "a b", "\x00", "a\x00", "\xff\xfe", "[::1]", "a;b", "a\nb", "\r\n", "%2C", "a.example", "*"}
+		origins = nil
+		for k := 0; k < 2+r.IntN(4); k++ {
+			if r.IntN(3) == 0 {
+				b := r.Bytes(1 + r.IntN(12))
+				for j := range b {
+					if b[j] == ',' {
+						b[j] = '.'
+					}
+				}
+				origins = append(origins, string(b))
+			} else {
+				origins = append(origins, fixed[r.IntN(len(fixed))])
+			}
+		}
+		c.Class("challenges_with_arbitrary_origin_name_bytes")
+	}
 	if i%16 == 7 {
 		// many origin names (the field is one comma-separated string of up to 65535 bytes)
 		origins = nil
@@ -583,6 +603,13 @@ func (m c04) requestCase(rc reqCodec, r *core.Rand, i int) {
 			for _, form := range []int{2, 4, 8} {
 				if f := varintForm(l, form); f != nil && form != n {
 					variants[fmt.Sprintf("overlong-varint#%d", form)] = splice(enc, 3, n, f)
+				}
+			}
+			// a list whose LAST element is one, two or 31 bytes short, with the length prefix saying so consistently and
+			// nothing after it (a decoder that pads a short last element accepts bytes whose canonical form is longer)
+			for _, short := range []int{1, 2, 31} {
+				if int(l) >= 32 && len(enc) == 3+n+int(l) {
+					variants[fmt.Sprintf("last-element-%d-short", short)] = append(append(clone(enc[:3]), refVarintEnc(l-uint64(short))...), enc[3+n:len(enc)-short]...)
 				}
 			}
 			variants["length+32"] = splice(enc, 3, n, refVarintEnc(l+32))
